@@ -158,6 +158,21 @@ def check_case(case, workers=None, info=None):
             bad('filter/' + ('drops-seen-pair' if key in seen_m else 'passes-unseen-pair'),
                 f'{tag}: erased key {"in" if key in seen_m else "not in"} the seen set, got {serialise(rf)}, '
                 f'unrestricted {s1}')
+        if not shipped:
+            # the answer depends on the CURRENT contents of the set only: edit one set object in place
+            key_c = (to_cat(key[0]), to_cat(key[1]))
+            s2 = set(seen)
+            for present in (False, True, False, True):
+                if present:
+                    s2.add(key_c)
+                else:
+                    s2.discard(key_c)
+                r_ = serialise(g.apply_binary_rules(x, y, seen_rules=s2))
+                if r_ != (s1 if present else []):
+                    bad('filter/stale-after-set-edit', f'{tag}: after the erased key was '
+                        f'{"added to" if present else "removed from"} the same seen-rule set the result is {r_}, '
+                        f'unrestricted {s1}')
+                    break
         if info is not None:
             info['seen_in'] = key in seen_m
         if not shipped:
@@ -278,7 +293,7 @@ def _shard(ctx, shard, nshards, n_hash):
     try:
         def factory():
             @seed(runner.hseed(ctx, 14))
-            @runner.hsettings(ctx.scale(1500, 6000))
+            @runner.hsettings(ctx.scale(1500, 15000))
             @given(tapes(200))
             def test(data):
                 case = build_case(data, st['invs'], st['seens'])
